@@ -319,19 +319,19 @@ Print Assumptions C02_two_adds_v0_refuted.
    16-core stress -- if C02_ok accepts it then a linearization EXISTS: a permutation of the calls
    that took effect, consistent with real-time precedence of the recorded stamps, on which the
    sequential reference returns every call's observed result and ends in the contents read at the end *)
-Theorem C02_checker_sound : forall c i vinit cinit hist fv fc,
-  hist_of_case c = Some (i, vinit, cinit, hist, fv, fc) -> C02_ok c = true ->
+Theorem C02_checker_sound : forall c rw i vinit cinit hist fv fc,
+  hist_of_case c = Some (rw, i, vinit, cinit, hist, fv, fc) -> C02_ok c = true ->
   forallb allowed_code (filter (fun h => is_write_call (h_call h)) hist) = true /\
-  exists order, linearization i (init_v vinit, init_c cinit) (effective hist) order fv fc.
+  exists order, linearization rw i (init_v vinit, init_c cinit) (effective hist) order fv fc.
 Proof. exact C02_ok_sound. Qed.
 
 (* and it rejects no linearizable history (stamps distinct, invocation before response) *)
-Theorem C02_checker_complete : forall i vinit cinit hist fv fc order,
+Theorem C02_checker_complete : forall rw i vinit cinit hist fv fc order,
   forallb allowed_code (filter (fun h => is_write_call (h_call h)) hist) = true ->
   keys_distinct (effective hist) = true ->
   (forall h, In h (effective hist) -> h_inv h <= h_resp h) ->
-  linearization i (init_v vinit, init_c cinit) (effective hist) order fv fc ->
-  linearizable_b i vinit cinit hist fv fc = true.
+  linearization rw i (init_v vinit, init_c cinit) (effective hist) order fv fc ->
+  linearizable_b rw i vinit cinit hist fv fc = true.
 Proof. exact linearizable_b_complete. Qed.
 Print Assumptions C02_checker_sound.
 
@@ -528,10 +528,10 @@ Print Assumptions C02_remembered_read_run_tolerance_refuted.
    tolerance 3 is not sent the write 5 -> 6, one of a Value without equivalence is; the write happened in both *)
 Example C02_nonvacuous_equivalence_is_configured :
   map (fun p => List.length (snd p))
-      (ob_vstreams (f_observe (mkCfg (Some (CqTol Fa 3))) None (Some (mkF 5 0 0)) [] eq_prog eq_sched)) = [1%nat] /\
+      (ob_vstreams (f_observe (mkCfg (Some (CqTol Fa 3)) None) None (Some (mkF 5 0 0)) [] eq_prog eq_sched)) = [1%nat] /\
   map (fun p => List.length (snd p))
-      (ob_vstreams (f_observe (mkCfg None) None (Some (mkF 5 0 0)) [] eq_prog eq_sched)) = [2%nat] /\
-  v_val (w_v (st_w (ob_state (f_observe (mkCfg (Some (CqTol Fa 3))) None (Some (mkF 5 0 0)) [] eq_prog eq_sched)))) = Some (mkF 6 0 0).
+      (ob_vstreams (f_observe (mkCfg None None) None (Some (mkF 5 0 0)) [] eq_prog eq_sched)) = [2%nat] /\
+  v_val (w_v (st_w (ob_state (f_observe (mkCfg (Some (CqTol Fa 3)) None) None (Some (mkF 5 0 0)) [] eq_prog eq_sched)))) = Some (mkF 6 0 0).
 Proof. exact equivalence_visible_to_subscribers. Qed.
 Example C02_nonvacuous_exact_equivalence : forall a b, interp_ceqv CqExact a b = true -> a = b.
 Proof. exact ceqv_exact_is_exact. Qed.
